@@ -12,6 +12,7 @@ import (
 
 	"perkeep.org/pkg/blob"
 	"perkeep.org/pkg/blobserver"
+	"perkeep.org/pkg/vos"
 	"perkeep.org/pkg/vsync"
 
 	"verif/bk"
@@ -27,7 +28,7 @@ var ctx = context.Background()
 
 func scenario(spec *bk.Spec, p c14prog.Program, bound int) *sched.Config {
 	name := spec.Name + "/" + p.Name
-	return &sched.Config{Name: name, Bound: bound, SigPrefix: "C14|" + spec.Name + "|" + p.Name,
+	return &sched.Config{Name: name, Bound: bound, DelayBound: !vk.Thorough(), SigPrefix: "C14|" + spec.Name + "|" + p.Name,
 		Body: func(x *sched.X) {
 			env := bk.NewEnv()
 			defer env.Close()
@@ -35,6 +36,13 @@ func scenario(spec *bk.Spec, p c14prog.Program, bound int) *sched.Config {
 				vsync.Point(store + op)
 				return nil
 			}
+			// diskpacked reads its pack files without holding its lock: every mutation of a pack
+			// file (header write, body write, sync, zeroing on removal) is a scheduling point too
+			vos.Install(nil, func(op, path string) error {
+				vsync.Point("file." + op)
+				return nil
+			})
+			defer vos.Install(nil, nil)
 			sto, err := spec.Build(env)
 			if err != nil {
 				panic(err)
@@ -117,10 +125,9 @@ func maskNames(m uint32) string {
 }
 
 func scenarios() []*sched.Config {
-	bound := 2
-	if vk.Thorough() {
-		bound = 3
-	}
+	// quick: delay bounding with 3 departures from the default scheduler (completes);
+	// thorough: preemption bounding with 3 preemptions (non-preempting switches free), cut by the budget
+	bound := 3
 	specs := bk.Specs(vk.Thorough())
 	var out []*sched.Config
 	for i := range specs {
@@ -140,6 +147,7 @@ func scenarios() []*sched.Config {
 
 func TestCheck(t *testing.T) {
 	defer vk.Cleanup()
+	idxsets.DelayBound = !vk.Thorough()
 	sched.BeforeExec = append(sched.BeforeExec, blobserver.VerifResetHubs)
 	res := vk.New("C14")
 	res.Rule = "E1 sched: per (backend configuration, client program) every schedule with at most `bound` preemptions at lock acquisitions of the backend packages and harness leaf-store calls; each execution's call/return history + final sequential reads checked with porcupine against the reference map; distinct = distinct (decision shape, verdict)"
